@@ -65,6 +65,8 @@ class Language:
         self.disk = disk
         self.folder = folder
         self.groups = {lab: groups_of(rows) for lab, rows in disk.rows.items()}
+        # one OMEN level per Markov pre-terminal ("expands to exactly the strings of its OMEN level"): levels are never merged
+        self.groups['M'] = [(float(p), [v]) for v, p in disk.rows['M']]
         if all_lower:
             for lab in list(self.groups):
                 if lab[0] == 'C':
